@@ -196,7 +196,15 @@ def stress_runs(cx, n):
     for i in range(n):
         cases.append({"id": "stress%d" % i, "qsize": cx.rnd.choice([0, 1, 2, 8, 64]), "until": True, "writers": cx.rnd.choice([2, 4, 8]),
                       "ops": cx.rnd.choice([50, 200]), "max_size": cx.rnd.choice([16, 96, 1500, 5000]), "seed": cx.rnd.randrange(1, 1 << 30), "_module": "chanfree"})
-    rs = run_driver(cx.driver, "chanfree", cases, cx.wd, tag="stress", shards=4)
+    try:
+        rs = run_driver(cx.driver, "chanfree", cases, cx.wd, tag="stress", shards=4)
+    except Inconclusive as e:
+        if cx.fails:
+            # the model-based phases have already produced their verdict on real executions: a stress phase that
+            # cannot finish on such a tree does not take it back
+            cx.notes.append("stress phase did not finish: %s" % str(e)[:200])
+            return
+        raise
     cx.absorb(rs, cases)
     cx.extra_cov["free_running_stress_records"] = cx.extra_cov.get("free_running_stress_records", 0) + sum(r.get("records", 0) for r in rs)
     log("  stress: %d cases, %d records, t=%.1fs" % (len(rs), sum(r.get("records", 0) for r in rs), time.time() - cx.t0))
